@@ -104,7 +104,8 @@ Record fdesc := {
   d_read : bool;              (* ReadHashBranch succeeds *)
   d_imports_ok : bool;        (* the import lines parse (Sysl files) *)
   d_pay : payload             (* PayUndecodable: the decoder / importer rejects the content; PayInvalid: converted, but
-                                 the resulting Sysl text has syntax errors (for Sysl text: it has syntax errors) *)
+                                 the resulting Sysl text has syntax errors (for Sysl text: it has syntax errors; for a
+                                 compiled model: decoded, but mergo.Merge into the module built so far fails or panics) *)
 }.
 
 Definition var_name (T:tables) (v:string) : string :=
@@ -148,12 +149,13 @@ Definition import_foreign (T:tables) (d:fdesc) : option fault :=
   end.
 
 (* the file's fault class: collectSpecs (read, import lines of a name containing ".sysl"), then the closure of
-   parseSpecs stage 1: a compiled model by suffix first (its decoding error surfaces in stage 2), else importForeign *)
+   parseSpecs stage 1: a compiled model by suffix first (its decoding error, or the failure of merging it, surfaces in
+   stage 2), else importForeign *)
 Definition file_fault (T:tables) (d:fdesc) : option fault :=
   if negb (d_read d) then Some ReadErr
   else if contains (d_path d) ".sysl" && negb (d_imports_ok d) then Some ImportSyntax
   else match pb_dispatch (t_pb T) (d_path d) with
-       | Some _ => match d_pay d with PayUndecodable => Some PbDecode | _ => None end
+       | Some _ => match d_pay d with PayUndecodable => Some PbDecode | PayInvalid => Some PbMerge | PayOk => None end
        | None => import_foreign T d
        end.
 
